@@ -196,8 +196,8 @@ func FactsAtBlock(b *ssa.BasicBlock) []SSAFact {
 		if t == f {
 			continue
 		}
-		td := len(t.Preds) == 1 && t.Dominates(b)
-		fd := len(f.Preds) == 1 && f.Dominates(b)
+		td := onlyEntryFrom(t, d) && t.Dominates(b)
+		fd := onlyEntryFrom(f, d) && f.Dominates(b)
 		if td && !fd {
 			out = append(out, SSAFact{ifi.Cond, true})
 		} else if fd && !td {
@@ -205,6 +205,17 @@ func FactsAtBlock(b *ssa.BasicBlock) []SSAFact {
 		}
 	}
 	return out
+}
+
+// onlyEntryFrom: every predecessor of s other than d is dominated by s (a back
+// edge of a loop headed by s), so control first enters s through d -> s.
+func onlyEntryFrom(s, d *ssa.BasicBlock) bool {
+	for _, p := range s.Preds {
+		if p != d && !s.Dominates(p) {
+			return false
+		}
+	}
+	return true
 }
 
 // FactsOnEdge returns the facts holding when control flows pred -> succ.
